@@ -868,6 +868,106 @@ def r09m(ctx, run):
                   "be written through it" % (desc, [c07_name(g) for g in got] or "nothing", c07_name(want)))
 
 
+def r09n(ctx, run):
+    """a decimal literal with an exponent denotes mantissa x 10^exponent and is accepted exactly when that value fits 64 bits: the Dec arm of
+    lower_int_literal is evaluated from source on sample spellings (separators, `e`/`E`, zero mantissa with a huge exponent, the values around 2^64)."""
+    from symint import SymInterp, Env
+    from absint import Obj, Term, Variant, Panic, CannotEstablish, _Return
+    V = Variant
+    fn = ctx.syn.fn("Ctx::lower_int_literal", "hir/src/body.rs")
+    arms = [(p_, b, a) for m in synq.matches_on(fn.body) for h, p_, g, b, a in synq.match_table(m) if h and h.endswith("IntValue::Dec")]
+    if len(arms) != 1:
+        raise LookupError("the Dec arm of lower_int_literal: %d" % len(arms))
+    pat, body, arm = arms[0]
+    binder = next((x["n"] for x in walk(pat) if x.get("k") == "p_ident"), None)
+    U64 = 2**64 - 1
+
+    class LI(SymInterp):
+        def eval(self, e, env):
+            if e.get("k") == "lit" and e.get("t") == "char":
+                lit = e["v"][1:-1] if e["v"].startswith("'") else e["v"]
+                return lit
+            if e.get("k") == "struct" and e["p"].endswith("LoweringDiagnostic"):
+                return Obj("LoweringDiagnostic", kind=next((canon(f_[1]) for f_ in e["f"] if f_[0] == "kind"), ""))
+            if e.get("k") == "field" and canon(e) == "self.diagnostics":
+                return Term("diagnostics")
+            if e.get("k") in ("ref",) or (e.get("k") == "un" and e.get("op") in ("*", "&")):
+                return self.eval(e["e"], env)
+            return super().eval(e, env)
+
+        def default_method(self, recv, m, args, e):
+            if isinstance(recv, Obj) and recv.name == "dec" and m == "text":
+                return recv.fields["text"]
+            if isinstance(recv, Term) and recv.op == "diagnostics" and m == "push":
+                self.reported.append(args[0].fields.get("kind", "") if isinstance(args[0], Obj) else "")
+                return None
+            if isinstance(recv, str):
+                if m == "replace":
+                    return recv.replace(args[0], args[1])
+                if m == "split":
+                    seps = args[0] if isinstance(args[0], (list, tuple)) else [args[0]]
+                    parts, cur = [], ""
+                    for ch in recv:
+                        if ch in seps:
+                            parts.append(cur)
+                            cur = ""
+                        else:
+                            cur += ch
+                    return parts + [cur]
+                if m == "parse":
+                    ok = recv.isdigit() and recv.isascii()
+                    # the mantissa is parsed as u64 (explicit turbofish), the exponent as the u32 checked_pow takes
+                    width = 64 if ("u64" in canon(e) or "u64" in str(e.get("g", "")) or canon(e["r"]) != "e") else 32
+                    if ok and int(recv) < 2 ** width:
+                        return V("Ok", {"0": int(recv)})
+                    return V("Err", {"0": Term("parse error")})
+            if isinstance(recv, list) and m == "next":
+                return recv.pop(0) if recv else None
+            if isinstance(recv, Variant) and recv.last in ("Ok", "Err") and m == "ok":
+                return recv.payload["0"] if recv.last == "Ok" else None
+            if m == "unwrap" and recv is not None:
+                return recv
+            if m in ("and_then", "map") and len(args) == 1 and not isinstance(recv, list):
+                return None if recv is None else self.call_closure(args[0], [recv])
+            if isinstance(recv, int) and not isinstance(recv, bool):
+                if m == "checked_pow":
+                    r = recv ** args[0] if args[0] < 200 else U64 + 1
+                    return r if r <= U64 else None
+                if m == "checked_mul":
+                    r = recv * args[0]
+                    return r if r <= U64 else None
+                if m in ("pow", "wrapping_pow", "wrapping_mul", "saturating_mul", "saturating_pow"):
+                    raise Panic("unchecked arithmetic `%s` on a literal's value" % m)
+            if m in ("range",):
+                return Term("range")
+            return super().default_method(recv, m, args, e)
+    samples = [("7", 7), ("1_000", 1000), ("5e0", 5), ("1_000e3", 1000000), ("12E2", 1200), ("0e20", 0), ("0E99", 0), ("0e0", 0), ("1e19", 10**19), ("2e19", None),
+               ("18446744073709551615", U64), ("18446744073709551616", None), ("1e20", None), ("18_446_744_073_709_551_615e0", U64), ("3e4294967296", None)]
+    for text, want in samples:
+        it = LI(funcs={"Some": lambda i, a: a[0], "Expr::IntLiteral": lambda i, a: ("int", a[0])})
+        it.reported = []
+        it.consts["Expr::Missing"] = "missing"
+        env = Env(None, {"self": Obj("self", tree=Term("tree")), binder: Obj("dec", text=text), "int_literal": Term("lit")})
+        key = "spelling:" + text
+        try:
+            try:
+                got = it.eval(body, env)
+            except _Return as r:
+                got = r.v
+        except (Panic, CannotEstablish) as c:
+            run.finding(fn.qual, key, fn.file, arm["ln"], "cannot establish what the literal `%s` denotes: %s" % (text, getattr(c, "what", c)))
+            continue
+        if want is None:
+            good = got == "missing" and any("OutOfRange" in r_ for r_ in it.reported)
+            what = "rejected as out of range"
+        else:
+            good = got == ("int", want) and not it.reported
+            what = "denotes %d" % want
+        run.check(good, fn.site(arm["ln"]), "`%s` %s" % (text, what), fn.qual, key, fn.file, arm["ln"],
+                  "the literal `%s` must be %s (mantissa x 10^exponent, accepted exactly when it fits 64 bits); lowering gives %s%s" % (
+                      text, what if want is None else "accepted and denote %d" % want, got, (" and reports " + ", ".join(it.reported)) if it.reported else ""))
+
+
 def r09k(ctx, run):
     """inference of a body is resumable: infer_expr returns early when it meets a global that is not inferred yet and a NEW GlobalInferenceCtx runs it
     again; statements finished in an earlier run are skipped through the set `inferred_stmts`, which outlives the runs.  A table of the context that is
@@ -958,6 +1058,7 @@ def rules(ctx):
         Rule("R09.i", "re-inference carries a widened literal's type up through every form whose type follows its parts", 8, r09i),
         Rule("R09.l", "the final pass widens a still-weak literal by its value alone: IntLiteral arm of reinfer_expr evaluated under every answer to its questions about other state", 16, r09l),
         Rule("R09.m", "weak-type replacement through `p^` gives the pointer expression a pointer type with the mutability of its own type (Deref arm of replace_weak_tys evaluated)", 6, r09m),
+        Rule("R09.n", "a decimal literal denotes mantissa x 10^exponent and is accepted iff that fits 64 bits (Dec arm of lower_int_literal evaluated on sample spellings)", 15, r09n),
         Rule("R09.k", "tables filled while a statement is inferred survive the interruptions of the body's inference (or are filled for skipped statements too)", 1, r09k),
         Rule("R09.f", "code generation materialises the written value: iconst/fNNconst/data object built from n without sign extension or truncation; constant data at the type's width", 20, r09f),
         Rule("R09.d", "weak literal widening thresholds do not exceed the maximum of the type codegen gives weak ints", 6, r09d),
